@@ -32,7 +32,7 @@ SPEC = {
     "runners": [{
         "kind": "coqcases", "module": "CorrC18", "harness": "c18", "corr": "Run/CorrC18.v (monitor of the lifecycle clauses + prediction of Model/Lifecycle.v vs a running server.Server)",
         "timeout": 3000, "sigfn": _sig,
-        "rule": "each case = one life of a real server.Server on loopback (HTTP, HTTPS with a certificate generated at run time, gRPC example service): Start, real requests until every listener answers, k requests per provider blocked inside their handlers (scripted: handlers wait on a channel), Stop with an ample / already expired / expiring context, release, then WaitGroup, connection-refused and re-bind checks (and for some a second server on the same ports); or Start immediately followed by Stop after a 0-5000us pause; or scripted schedules through a blocking logger: HTTP/HTTPS provider goroutines held between startWg.Done and ListenAndServe (Stop before the serve loop), the gRPC provider goroutine held before it listens and signals (Stop issued WHILE Start is still in progress). Generation: every non-empty provider subset x in-flight patterns x context kinds; immediate stops repeated with varying pauses; seeded random scenarios. Observations that look wrong are re-run up to 3 times and reported only if they reproduce every time. distinct = by (providers, in-flight vector, context kind, immediate, pause, idle connections, TLS mode, restart); every case is non-trivial (at least one provider).",
+        "rule": "each case = one life of a real server.Server on loopback (HTTP, HTTPS with a certificate generated at run time, gRPC example service): Start, real requests until every listener answers, k requests per provider blocked inside their handlers (scripted: handlers wait on a channel), Stop with an ample / already expired / expiring context, release, then WaitGroup, connection-refused and re-bind checks (and for some a second server on the same ports); or Stop contexts WITH a deadline sized relative to what the blocked requests still need (0.05x, 0.7x: Stop returns by itself; 1.7x, 20x: Stop waits, returns nil, clients get their responses) on 2 and 3 listeners, these lives running concurrently; or Start immediately followed by Stop after a 0-5000us pause; or scripted schedules through a blocking logger: HTTP/HTTPS provider goroutines held between startWg.Done and ListenAndServe (Stop before the serve loop), the gRPC provider goroutine held before it listens and signals (Stop issued WHILE Start is still in progress). Generation: every non-empty provider subset x in-flight patterns x context kinds; immediate stops repeated with varying pauses; seeded random scenarios. Observations that look wrong are re-run up to 3 times and reported only if they reproduce every time. distinct = by (providers, in-flight vector, context kind, immediate, pause, idle connections, TLS mode, restart); every case is non-trivial (at least one provider).",
     }],
     "trusted": [
         "net/http.Server and grpc.Server are NOT modelled; the theorems constrain them only by the contracts L1-L3 (and their converses where stated), which are Section hypotheses closed by the instance lib_serve_ret/lib_drain_ret",
